@@ -1059,6 +1059,52 @@ fn case_huge_geometry(rng: &mut Rng, w: &W, out: &mut impl Write) {
     }
 }
 
+/// the wrap-pending position (cursor one past the last column) on a row above / inside / below the scroll
+/// region, then ONE command of any family: every command has to decide what the pending wrap and the
+/// out-of-range column mean for it (clamp, clear, keep), and the rows outside the region have their own rules
+fn case_edge_cmd(rng: &mut Rng, w: &W, out: &mut impl Write) {
+    let (cols, rows) = (rng.range(1, 9), rng.range(1, 6));
+    writeln!(out, "N 0 {} {} {}", cols, rows, lim_tok(gen_limit(rng, w))).unwrap();
+    if rng.chance(60) {
+        writeln!(out, "S 0 {}", hex_encode(&gen_fill(rng, cols, rows))).unwrap();
+    }
+    if rng.chance(70) && rows >= 2 {
+        let t = rng.range(1, rows - 1);
+        let b = rng.range(t + 1, rows);
+        writeln!(out, "S 0 {}", hex_encode(&format!("\u{1b}[{};{}r", t, b))).unwrap();
+    }
+    if rng.chance(20) {
+        writeln!(out, "S 0 {}", hex_encode(*rng.pick(&["\u{1b}[?6h", "\u{1b}[20h", "\u{1b}[4h", "\u{1b}[?7l"]))).unwrap();
+    }
+    for _ in 0..rng.range(1, 5) {
+        // to the edge of some row (any row: above, inside, below the region)
+        let r = rng.range(1, rows);
+        let s = match rng.below(3) {
+            0 => format!("\u{1b}[{};{}H{}", r, cols, gen_char(rng)),
+            1 => format!("\u{1b}[{};1H{}", r, (0..cols).map(|_| gen_char(rng)).collect::<String>()),
+            _ => format!("\u{1b}[{}d\u{1b}[999C{}", r, gen_char(rng)),
+        };
+        writeln!(out, "S 0 {}", hex_encode(&s)).unwrap();
+        // one or two commands from there
+        for _ in 0..rng.range(1, 2) {
+            let s = match rng.below(9) {
+                0 => gen_rel(rng, cols, rows),
+                1 => gen_abs(rng, cols, rows),
+                2 | 3 => gen_scroll(rng, rows),
+                4 => gen_edit(rng, cols),
+                5 => gen_tabs(rng, cols),
+                6 => gen_save(rng),
+                7 => rng.pick(&["\n", "\u{1b}D", "\u{1b}E", "\u{1b}M", "\u{b}", "\u{c}", "\r", "\u{8}", "\t"]).to_string(),
+                _ => gen_char(rng).to_string(),
+            };
+            writeln!(out, "S 0 {}", hex_encode(&s)).unwrap();
+        }
+        if rng.chance(30) {
+            writeln!(out, "S 0 {}", hex_encode(&gen_char(rng).to_string())).unwrap();
+        }
+    }
+}
+
 /// one instance, ops drawn from the small state-machine alphabet (with resizes and queries)
 fn case_soup(rng: &mut Rng, w: &W, out: &mut impl Write) {
     let park = rng.chance(w.park_pct);
@@ -1772,6 +1818,7 @@ pub fn generate(profile: &str, seed: u64, ncases: usize, tier: &str, out: &mut i
             "C14" => case_c14(&mut rng, &w, out),
             "C16" => case_c16(&mut rng, &w, out),
             "C19" => case_c19(&mut rng, &w, out),
+            "C05" | "C06" | "C07" | "C15" | "C17" | "C18" | "C02" | "C01" if i % 8 == 1 => case_edge_cmd(&mut rng, &w, out),
             "C18" | "C05" if i % 8 == 5 => case_tabs(&mut rng, &w, out),
             "C01" | "C02" | "C05" | "C17" | "C15" | "C13" => {
                 if i % 3 == 2 {
